@@ -624,17 +624,17 @@ Proof.
   apply crc32_update_range. lia.
 Qed.
 
-(* "every CRC the format stores for a member is listed" is false: a folder-level CRC of a folder with one file is the
-   file's CRC by the format (Spec.s_merge_crcs), but SubstreamsInfo._read copies it to the member only inside its
-   `if pid == CRC` branch -- and SubStreamsInfo has no CRC record when every sub-stream CRC is known from its folder.
-   Witness: one member "a" = "abc" (COPY), CRC 891568578 stored at folder level, raw header. *)
+(* a folder-level CRC of a folder with one file is the file's CRC by the format (Spec.s_merge_crcs); SubStreamsInfo has
+   no CRC record when every sub-stream CRC is known from its folder.  Since the repair of SubstreamsInfo._read (the
+   folder CRC is passed on in that case too) the member is listed with it.  Former refutation witness, now a regression
+   example: one member "a" = "abc" (COPY), CRC 891568578 stored at folder level, raw header. *)
 Definition folder_crc_bytes : bytes :=
   [1; 4; 6; 0; 1; 9; 3; 0; 7; 11; 1; 0; 1; 1; 0; 12; 3; 10; 1; 194; 65; 36; 53; 0; 8; 0; 0; 5; 1; 17; 5; 0; 97; 0; 0; 0;
    21; 6; 1; 0; 32; 0; 0; 0; 0; 0].
-Lemma listed_crc_folder_refuted_header :
+Lemma listed_crc_folder_level_header :
   match s_header 4096 folder_crc_bytes, parse_header 4096 folder_crc_bytes with
   | Ok sh, Ok h => s_valid sh = true /\ map pl_crc (spec_plans sh) = [Some 891568578]
-                   /\ exists ps, impl_plans h = Ok ps /\ map af_crc32 ps = [None] /\ map af_uncompressed ps = [3]
+                   /\ exists ps, impl_plans h = Ok ps /\ map af_crc32 ps = [Some 891568578] /\ map af_uncompressed ps = [3]
   | _, _ => False
   end.
 Proof. vm_compute. split; [reflexivity|]. split; [reflexivity|]. eexists. repeat split. Qed.
